@@ -140,6 +140,7 @@ package state
 //@   trusted
 //@   assigns nothing
 //@   ensures some: result1 == nil ==> result0 != nil
+//@   ensures fresh: fresh(result0)
 //@ extern types.ValidatorSetFromProto
 //@   assigns nothing
 //@   ensures wf: result1 == nil ==> (result0 != nil && wfSet(result0) && wfPowers(result0) && wfCached(result0) && prioBounded(result0))
@@ -150,6 +151,7 @@ package state
 // A past set is read from its own record when that holds the full set; otherwise from the record lastStoredHeightFor
 // names, advanced by exactly the number of heights in between.
 //@ func dbStore.LoadValidators
+//@   assigns except(tmstate)
 //@   atcall loadValidatorsInfo which: arg1 == height || (valInfo != nil && arg1 == ite(height - height % 100000 > valInfo.LastHeightChanged, height - height % 100000, valInfo.LastHeightChanged))
 //@   atcall ValidatorSet.IncrementProposerPriority by: arg1 == height - lastStoredHeight && lastStoredHeight == ite(height - height % 100000 > valInfo.LastHeightChanged, height - height % 100000, valInfo.LastHeightChanged)
 
@@ -265,3 +267,39 @@ package state
 //@   assigns nothing
 //@   ensures truthful: result1 == nil ==> result0.LastBlockHeight == appH
 //@   grants v: result1 == nil ==> appInfo(result0.LastBlockAppHash, uint64(result0.LastBlockHeight), result0.AppVersion)
+
+// ---- C18: pruning the state store keeps what is still needed to produce the sets and parameters of height `to` ----
+// ASSUMED (by their format strings "validatorsKey:%v", "consensusParamsKey:%v", "abciResponsesKey:%v"): the three key
+// families are disjoint and the keys of one family are distinct for distinct heights.
+//@ func calcConsensusParamsKey
+//@   assigns nothing
+//@   purefn
+//@ func calcABCIResponsesKey
+//@   assigns nothing
+//@   purefn
+//@ axiom statekeys_disjoint: forall(a, forall(b, calcValidatorsKey(a) != calcConsensusParamsKey(b) && calcValidatorsKey(a) != calcABCIResponsesKey(b) && calcConsensusParamsKey(a) != calcABCIResponsesKey(b)))
+//@ axiom statekeys_inj: forall(a, forall(b, a != b ==> (calcValidatorsKey(a) != calcValidatorsKey(b) && calcConsensusParamsKey(a) != calcConsensusParamsKey(b))))
+//@ func dbStore.loadConsensusParamsInfo
+//@   trusted
+//@   assigns nothing
+//@   ensures some: result1 == nil ==> result0 != nil
+//@ func dbStore.LoadConsensusParams
+//@   trusted
+//@   assigns nothing
+//@ extern tmstate.ConsensusParamsInfo.Marshal
+//@   assigns nothing
+//@ import tmproto github.com/tendermint/tendermint/proto/tendermint/types
+//@ extern tmproto.ConsensusParams.Equal
+//@   assigns nothing
+// The record at `to` decides what must survive: when it does not hold the full validator set, the record of the height
+// the set last changed at AND the record of the checkpoint lastStoredHeightFor names; when it does not hold the
+// parameters, the record of the height they last changed at. No batch deletes the key of a height in those keep sets
+// (kept heights get their full value written instead), and only heights in [from, to) are touched.
+//@ func dbStore.PruneStates
+//@   atcall Batch.Delete vals: arg0 == calcValidatorsKey(h) ==> !(has(keepVals, h) && keepVals[h])
+//@   atcall Batch.Delete params: arg0 == calcConsensusParamsKey(h) ==> !(has(keepParams, h) && keepParams[h])
+//@   atcall Batch.Delete range: from <= h && h < to && (arg0 == calcValidatorsKey(h) || arg0 == calcConsensusParamsKey(h) || arg0 == calcABCIResponsesKey(h))
+//@   atcall Batch.Set range: from <= h && h < to && (arg0 == calcValidatorsKey(h) || arg0 == calcConsensusParamsKey(h))
+//@   loop 1 invariant rng: h < to && from <= h + 1
+//@   loop 1 invariant keepv: valInfo != nil && (valInfo.ValidatorSet == nil ==> (has(keepVals, valInfo.LastHeightChanged) && keepVals[valInfo.LastHeightChanged] &&
+//@     | has(keepVals, ite(to - to % 100000 > valInfo.LastHeightChanged, to - to % 100000, valInfo.LastHeightChanged)) && keepVals[ite(to - to % 100000 > valInfo.LastHeightChanged, to - to % 100000, valInfo.LastHeightChanged)]))
